@@ -92,7 +92,24 @@ func (x *Exec) call(e *ast.CallExpr, st *State) Value {
 		}
 		argVals = append(argVals, v)
 	}
-	return x.callWith(e, st, recvVal, argVals)
+	// function literals passed as callbacks: their bodies are checked once for
+	// arbitrary arguments (restricted by `lit N requires`), and whatever they
+	// assign is unknown after the call
+	var lits []*ast.FuncLit
+	for _, a := range e.Args {
+		if lit, ok := unparen(a).(*ast.FuncLit); ok {
+			lits = append(lits, lit)
+		}
+	}
+	for _, lit := range lits {
+		x.checkCallbackLit(lit, st)
+	}
+	res := x.callWith(e, st, recvVal, argVals)
+	for _, lit := range lits {
+		m := x.modifiedIn(lit.Body)
+		x.havoc(st, m)
+	}
+	return res
 }
 
 func paramTypeAt(sig *types.Signature, i int) types.Type {
